@@ -89,25 +89,33 @@ func Centroid(g geom.Geom) (geom.Point, error) {
 	case geom.Polygon:
 		// The sums below are cubic in the coordinates. When the cubes would
 		// leave the floating point range, the centroid of a copy scaled by a
-		// power of two (which is exact) is calculated and scaled back.
-		m := 0.
+		// power of two per axis (which is exact) is calculated and scaled back.
+		mx, my := 0., 0.
 		for _, r := range g.(geom.Polygon) {
 			for _, v := range r {
-				m = math.Max(m, math.Max(math.Abs(v.X), math.Abs(v.Y)))
+				mx = math.Max(mx, math.Abs(v.X))
+				my = math.Max(my, math.Abs(v.Y))
 			}
 		}
-		if (m >= 0x1p300 || (m <= 0x1p-300 && m > 0)) && !math.IsInf(m, 0) {
-			_, e := math.Frexp(m)
-			k := math.Ldexp(1, e-1)
+		kx, ky := 1., 1.
+		if (mx >= 0x1p300 || (mx <= 0x1p-300 && mx > 0)) && !math.IsInf(mx, 0) {
+			_, e := math.Frexp(mx)
+			kx = math.Ldexp(1, e-1)
+		}
+		if (my >= 0x1p300 || (my <= 0x1p-300 && my > 0)) && !math.IsInf(my, 0) {
+			_, e := math.Frexp(my)
+			ky = math.Ldexp(1, e-1)
+		}
+		if kx != 1 || ky != 1 {
 			q := make(geom.Polygon, len(g.(geom.Polygon)))
 			for i, r := range g.(geom.Polygon) {
 				q[i] = make(geom.Path, len(r))
 				for j, v := range r {
-					q[i][j] = geom.Point{X: v.X / k, Y: v.Y / k}
+					q[i][j] = geom.Point{X: v.X / kx, Y: v.Y / ky}
 				}
 			}
 			c, err := Centroid(q)
-			return geom.Point{X: c.X * k, Y: c.Y * k}, err
+			return geom.Point{X: c.X * kx, Y: c.Y * ky}, err
 		}
 		for _, r := range g.(geom.Polygon) {
 			a := area(r)
